@@ -95,11 +95,13 @@ func (lc *LocalClient) AddVersion(v Version, deps []RequirementVersion) {
 			versions[i] = v
 		}
 	}
-	// Otherwise insert and sort.
+	// Otherwise insert.
 	if !existed {
 		versions = append(versions, v)
-		SortVersions(versions)
 	}
+	// Sort in both cases: the order depends on the attributes (npm's
+	// "latest" tag), which a replacement may have changed.
+	SortVersions(versions)
 	lc.PackageVersions[v.PackageKey] = versions
 
 	SortDependencies(deps)
